@@ -217,6 +217,36 @@ class DuckMolecule:
         self.frozen_orbitals = None
 
 
+def h_pool(env, n_orbs, utd, canary=False):
+    """every generator of the default ADAPT / UCCGSD fermionic pool commutes with N and S_z (hence exp(theta G) conserves
+    them); decided on the operators themselves: every coefficient of the normal-ordered commutator is zero"""
+    from tangelo.toolboxes.ansatz_generator._general_unitary_cc import uccgsd_generator
+    from tangelo.toolboxes.operators import FermionOperator, normal_ordered
+    pool = uccgsd_generator(2 * n_orbs, up_down=utd)
+    N = build_op(fock.number_terms(n_orbs, utd))
+    Sz = build_op(fock.sz_terms(n_orbs, utd))
+    if canary:
+        a, b = fock.so_index(0, 0, n_orbs, utd), fock.so_index(0, 1, n_orbs, utd)
+        pool = list(pool) + [FermionOperator(((a, 1), (b, 0)), 1.0) - FermionOperator(((b, 1), (a, 0)), 1.0)]
+    env.check_true(len(pool) > 0, "pool is not empty")
+    bad = []
+    for k, G in enumerate(pool):
+        for nm, O in (("N", N), ("Sz", Sz)):
+            comm = normal_ordered(copy.deepcopy(O) * copy.deepcopy(G) - copy.deepcopy(G) * copy.deepcopy(O))
+            mx = max([abs(complex(v)) for v in comm.terms.values()] or [0.0])
+            if mx > 1e-12:
+                bad.append((k, nm, mx))
+    env.check_true(not bad, f"every pool generator commutes with N and S_z ({n_orbs} orbitals, up_then_down={utd})", detail=str(bad[:4]))
+
+
+def build_op(terms):
+    from tangelo.toolboxes.operators import FermionOperator
+    op = FermionOperator()
+    for t, c in terms.items():
+        op += FermionOperator(t, float(c))
+    return op
+
+
 def h_ansatz(env, which, n_mos=2, n_electrons=2, spin=0, utd=False, signs=None, canary=False):
     from tangelo.toolboxes.ansatz_generator.uccsd import UCCSD
     from tangelo.toolboxes.ansatz_generator.upccgsd import UpCCGSD
@@ -331,6 +361,10 @@ def shapes(tier, seed):
     if not quick:
         out.append(Shape("ansatz/UpCCGSD/6q/utd1", h_ansatz, dict(which="UpCCGSD", n_mos=3, n_electrons=2, spin=0, utd=True, signs=(1, -1)),
                          modules=MODS, max_paths=16))
+    # (the generator always uses the interleaved ordering: its up_down argument is not forwarded, the mapping re-orders later)
+    for no in ((2, 3) if quick else (2, 3, 4)):
+        out.append(Shape(f"pool/uccgsd/o{no}", h_pool, dict(n_orbs=no, utd=False), modules=()))
+    out.append(Shape("canary/pool", h_pool, dict(n_orbs=2, utd=False, canary=True), modules=(), canary=True))
     out.append(Shape("ansatz/pUCCD/2q", h_ansatz, dict(which="pUCCD"), modules=MODS, max_paths=64))
     out.append(Shape("ansatz/pUCCD/3q", h_ansatz, dict(which="pUCCD", n_mos=3), modules=MODS, max_paths=64))
     out.append(Shape("ansatz/UCC1", h_ansatz, dict(which="UCC1"), modules=MODS))
